@@ -572,3 +572,87 @@ func c12RSAPad(c *Ctx) {
 		}
 	}
 }
+
+// ---------------------------------------------------------------- C12.enumnames
+//
+// Enum -> string tables (String() methods and helpers) carry hash, curve and
+// algorithm names from the key parameters to the subtle constructors, which
+// select the algorithm by that name. Folded on every constant of the enum:
+// (injective) two constants with different values do not map to the same
+// non-empty name; (agreement) a constant does not map to the canonical name of
+// another constant of the same type (SHA384 -> "SHA512", or SHA224 and SHA384
+// swapped) unless it is also its own.
+func c12EnumNames(c *Ctx) {
+	p, r := c.P, c.R
+	norm := func(s string) string {
+		var b strings.Builder
+		for _, ch := range strings.ToUpper(s) {
+			if (ch >= 'A' && ch <= 'Z') || (ch >= '0' && ch <= '9') {
+				b.WriteRune(ch)
+			}
+		}
+		return b.String()
+	}
+	ev := consteval.New()
+	n := 0
+	for _, f := range p.SortedFuncs(core.Product) {
+		if f.Parent() != nil || f.Synthetic != "" || len(f.Params) != 1 || len(f.Blocks) == 0 {
+			continue
+		}
+		en := enumNamed(f.Params[0].Type())
+		res := f.Signature.Results()
+		if en == nil || res.Len() == 0 || res.Len() > 2 {
+			continue
+		}
+		if b, ok := res.At(0).Type().Underlying().(*types.Basic); !ok || b.Info()&types.IsString == 0 {
+			continue
+		}
+		if res.Len() == 2 && !guard.IsErrorType(res.At(1).Type()) {
+			continue
+		}
+		if core.ClassOf(en.Obj().Pkg().Path()) != core.Product {
+			continue // proto enums have generated String methods
+		}
+		consts := constsOf(en)
+		var names []string
+		for nme := range consts {
+			names = append(names, nme)
+		}
+		sort.Strings(names)
+		got := map[string]string{} // constant -> string
+		for _, nme := range names {
+			outs, ok := ev.Eval(f, []consteval.Val{{K: consteval.Const, C: consts[nme]}}, nil)
+			if !ok || len(outs) != 1 || outs[0].IsErr() || outs[0].Results[0].K != consteval.Const || outs[0].Results[0].C.Kind() != constant.String {
+				continue
+			}
+			got[nme] = constant.StringVal(outs[0].Results[0].C)
+		}
+		if len(got) < 2 {
+			continue
+		}
+		n++
+		bad := ""
+		for _, a := range names {
+			sa, okA := got[a]
+			if !okA || sa == "" || strings.HasPrefix(strings.ToLower(sa), "unknown") || strings.HasPrefix(strings.ToLower(sa), "unspecified") {
+				continue
+			}
+			for _, b := range names {
+				if a == b || constant.Compare(consts[a], token.EQL, consts[b]) {
+					continue
+				}
+				if sb, okB := got[b]; okB && sb == sa {
+					bad = fmt.Sprintf("%s and %s both map to %q", a, b, sa)
+				}
+				// a's string is b's canonical name, and not a's own
+				if norm(sa) == norm(b) && norm(sa) != norm(a) && !strings.Contains(norm(a), norm(sa)) {
+					bad = fmt.Sprintf("%s maps to %q, the name of %s", a, sa, b)
+				}
+			}
+		}
+		r.Check(bad == "", "C12.enumnames", "C12.enumnames/"+core.FuncID(f), p.FuncPos(f),
+			"an enum-to-name table hands out the wrong name: "+bad+" — the subtle layer selects the algorithm by this name, so keys of that parameter value compute with another algorithm than their parameters (and their serialization) say", fmt.Sprintf("%d constants map to distinct names, none to another constant's name", len(got)))
+	}
+	r.Counts["enum_name_tables"] = n
+	r.Min("C12.enumnames", 20)
+}
